@@ -44,6 +44,7 @@ func verifSpanOf(r VerifRun) Span {
 //	erase   eraseRegion(Region{X: x, X2: n, Y: 0, Y2: 1}, CRClear) on a w x 1 screen
 //	text    Line(0) on a w x 1 screen
 //	styled  StyledLine(x, n, 0) on a w x 1 screen (the result's runs are returned as the row)
+//	ansi    renderLineANSI(0) on a w x 1 screen (returned in Text)
 //
 // cur is the screen's current style.
 func VerifLineOp(op string, w int, cur [3]uint32, runs []VerifRun, cached int, x, n int, ins VerifRun, keep bool) (res VerifLineResult) {
@@ -72,7 +73,7 @@ func VerifLineOp(op string, w int, cur [3]uint32, runs []VerifRun, cached int, x
 		resizeLine(&line, x, style, mode)
 	case "find":
 		res.Idx, res.Off = findSpanAtX(&line, x)
-	case "write", "dch", "erase", "text", "styled":
+	case "write", "dch", "erase", "text", "styled", "ansi":
 		rec := &verifRegionRecorder{a: -1, b: -1}
 		s := newSpanScreen(rec)
 		rec.a, rec.b, rec.calls = -1, -1, 0
@@ -94,6 +95,8 @@ func VerifLineOp(op string, w int, cur [3]uint32, runs []VerifRun, cached int, x
 			s.eraseRegion(Region{X: x, X2: n, Y: 0, Y2: 1}, CRClear)
 		case "text":
 			res.Text = s.Line(0)
+		case "ansi":
+			res.Text = s.renderLineANSI(0)
 		}
 		line = s.lines[0]
 		if op == "styled" {
